@@ -1,0 +1,51 @@
+//go:build verif
+
+// Contracts for package common, checked by /verif/govc (comment-only; see /verif/DESIGN.md).
+package common
+
+//@ spec func wfBits(b *BitArray) bool = b != nil && b.Bits > 0 && b.Bits <= 9223372036854775807 && len(b.Elems) == (b.Bits + 63) / 64
+
+//@ func NewBitArray(bits int) (r *BitArray)
+//@   for C18 C02
+//@   safe
+//@   requires bits <= 281474976710656
+//@   ensures bits <= 0 ==> r == nil
+//@   ensures bits > 0 ==> fresh(r) && wfBits(r) && r.Bits == bits && fresh(r.Elems)
+
+//@ func (bA *BitArray) Size() (r int)
+//@   for C18 C02
+//@   safe
+//@   ensures bA == nil ==> r == 0
+//@   ensures bA != nil && bA.Bits <= 9223372036854775807 ==> r == bA.Bits
+
+//@ func (bA *BitArray) SetIndex(i int, v bool) (r bool)
+//@   for C18 C02
+//@   safe
+//@   requires bA != nil ==> wfBits(bA)
+//@   requires 0 <= i
+//@   modifies bA.Elems[_]
+//@   ensures r <==> (bA != nil && i < bA.Bits)
+
+//@ func (bA *BitArray) GetIndex(i int) (r bool)
+//@   for C18 C02
+//@   safe
+//@   requires bA != nil ==> wfBits(bA)
+//@   requires 0 <= i
+//@   ensures bA == nil ==> !r
+
+// PanicSanity never returns.
+//@ func PanicSanity(v interface{})
+//@   for C02 C18 C13
+//@   modifies *
+//@   ensures false
+
+// Hex rendering of a hash: "0x" + 64 hex digits; injective (trusted: encoding/hex is outside the subset).
+//@ spec func hexHash(h Hash) string
+//@ axiom hexHashInjective(a Hash, b Hash)
+//@   ensures len(hexHash(a)) == 66
+//@   ensures hexHash(a) == hexHash(b) ==> a == b
+//@   pattern hexHash(a); hexHash(b)
+//@ trusted func (h Hash) String() (r string)
+//@   ensures r == hexHash(h)
+//@ trusted func (h Hash) Hex() (r string)
+//@   ensures r == hexHash(h)
